@@ -58,7 +58,7 @@ try:
     rc1, out1 = sh(cmd)
     res["demo_fails_with_change"] = rc1 != 0 and "[build failed]" not in out1 and "[setup failed]" not in out1
     res["demo_out_with"] = out1[-600:]
-    sh("git apply -R %s" % os.path.join(src, "patch.diff"))
+    sh("git reset -q --hard HEAD")   # undo the change (the untracked demo file stays)
     rc2, out2 = sh(cmd)
     res["demo_passes_without_change"] = rc2 == 0
     res["demo_out_without"] = out2[-300:]
